@@ -69,9 +69,12 @@ KNOWN_LIBRARY_DEVIATIONS = {
         "rather than as a defect."),
     "segment.mutual_information/AMI-all-singletons": (
         "Predicate: >= 2 frames and every frame is its own cluster in both "
-        "labellings.  MI = E[MI] = H = log n, AMI is 0/0; the library "
-        "evaluates it in floating point and returns NaN, +-inf or an "
-        "arbitrary finite ratio of rounding errors depending on n."),
+        "labellings (cluster_ref.ami_is_undefined()).  MI = E[MI] = H = log n, "
+        "so AMI is an exact 0/0 (oracle: NaN).  The library evaluates the "
+        "quotient in floating point: it returns 1.0 when the rounding errors "
+        "of MI and H happen to coincide and NaN otherwise (NaN for n = 2, 4, "
+        "13; 1.0 for the other n <= 40) - the result depends on n only "
+        "through rounding."),
     "hierarchy/float-frame-index": (
         "Predicate: hierarchy_ref.float_frame_hazard([ref, est], frame_size, "
         "window) is True: frame_size is not a short binary fraction (e.g. the "
@@ -368,17 +371,30 @@ def _variant(rng, occ):
 def _rand_patterns(rng):
     nP = rng.randint(1, 4)
     ref = []
+    distinct = rng.random() < .6  # no two prototypes on a side are translations
     for _ in range(nP):
         proto = _rand_occ(rng)
-        if ref and rng.random() < .2:
+        if ref and not distinct and rng.random() < .2:
             # a reference pattern that is a translation of an earlier one
             proto = _translate(ref[rng.randrange(len(ref))][0], lat(rng, 1, 9, 4), 0.0)
         pat = [proto] + [_variant(rng, proto) for _ in range(rng.randint(0, 3))]
         ref.append(pat)
     nQ = rng.randint(1, 7)
     est = []
+    unused = list(range(nP))
+    rng.shuffle(unused)
     for _ in range(nQ):
-        if rng.random() < .75:
+        if distinct and unused and rng.random() < .75:
+            # prototype = translated (or nearly translated) reference prototype,
+            # each reference pattern used at most once
+            src = ref[unused.pop()]
+            proto = _translate(src[0], lat(rng, 0, 16, 4), float(rng.choice([0, 0, 5])))
+            if rng.random() < .3:
+                i = rng.randrange(len(proto))
+                proto[i] = (proto[i][0] + rng.choice([1 / 64, 1 / 1024, 1 / 4]), proto[i][1])
+            pat = [proto] + [_variant(rng, src[rng.randrange(len(src))])
+                             for _ in range(rng.randint(0, 3))]
+        elif not distinct and rng.random() < .75:
             src = ref[rng.randrange(nP)]
             base = src[rng.randrange(len(src))]
             proto = _variant(rng, base)
@@ -503,7 +519,7 @@ def test_cluster(rng, n_cases=2200):
         show = lambda: "ref=%r est=%r beta=%r" % ("".join(ref) if len(ref[0]) == 1 else ref,  # noqa
                                                   "".join(est) if len(est[0]) == 1 else est, beta)
         single = len(set(ref)) == 1 or len(set(est)) == 1
-        singletons = n >= 2 and len(set(ref)) == n and len(set(est)) == n
+        singletons = C.ami_is_undefined(ref, est)
         args = (ri, rl_lib, ei, el)
         T.record("segment.pairwise",
                  _call(Sg.pairwise, *args, frame_size=1.0, beta=beta),
@@ -563,7 +579,7 @@ def _hier_class(ref_i, est_i, fs, window):
     return "?"
 
 
-def test_hierarchy(rng, n_cases=420):
+def test_hierarchy(rng, n_cases=600):
     Hm = mir_eval.hierarchy
     alphabet = ["a", "b", "c", "A", "B"]
     for it in range(n_cases):
